@@ -68,11 +68,25 @@ CHECKS.update({
    ref="DESIGN §6 C18", note=TS),
 })
 
+TT = ("Lean 4.33 kernel; axioms propext, Classical.choice, Quot.sound only; the tables under lean/GcArena/Generated are REGENERATED from /repo's "
+      "working tree by the syn-based translator extract/ on every run and the table theorems re-checked by `decide`; the translator's "
+      "classification tables (ownership class of std receivers, which positions a container stores, call resolution by name) and rustc's "
+      "borrow / region / trait checking, `unsafe` gating and parametricity of safe generic code are trusted; compile probes cross-validate")
+
+CHECKS.update({
+ "C13": dict(level="proof", tech="Lean 4 Write-capability calculus over a DerefWriteTable regenerated from source + rustc probes", engine="tables",
+   text="Partial (rustc trusted): `covered` — for every table satisfying Table.ok every derivable Write capability / unlocked store is pointer-free or has all its holders barriered (so every accepted program's stores are guarded stores of the collector model, to which C01 applies); `table_ok` by `decide` on the table regenerated from /repo each run; `cells_static`; `unsound_witnesses`. 156 probes (one per Write constructor / DerefWrite / IndexWrite / Unlock impl / field! misuse / Cell holding a Gc) compiled with rustc, accepted ones run. The pinned tree failed table_ok for &T, Rc<T>, Arc<T> (defects D2a/D2b, fixed).",
+   ref="DESIGN §6 C13, §7", note=TT),
+ "C16": dict(level="proof", tech="Lean 4 structural induction over type shapes for every complete CollectTable + recording-tracer differential", engine="tables+collect",
+   text="Proof: `exact` — for every complete table, every type shape and well-typed value, the provided trace reports exactly the contained pointers (strong as strong, weak as weak) in every parameter / element position and size, and NEEDS_TRACE = false implies no pointers; `table_complete` by `decide +kernel` on the 77-entry table regenerated from the macro-expanded crate each run; `needs_trace_mono`. Tie 2: harness_collect builds every provided container with distinct pointers in every position x size and records what Trace::trace reports (1029 cases quick, all features; per-feature builds in thorough), plus end-to-end survival runs.",
+   ref="DESIGN §6 C16", note=TT + "; std / third-party iterators are trusted to visit every element"),
+ "C19": dict(level="proof", tech="Lean 4 signature-table theorem (no safe fn conjures a Gc<T>) over a SigTable regenerated from source + rustc probes; conversions: layout harness",
+   text="Static half (partial, rustc + parametricity trusted): `no_conjure` by `decide` over the table of every safe public fn / macro whose result contains Gc<T>/GcWeak<T>, regenerated from /repo each run; `pinned_conjure_witness` (the pre-fix alloc_zst signature is rejected: defect D3, fixed). Conjuring probes (Gc<Void>, private-constructor ZST) must not compile. Dynamic half (identity of as_thin/as_fat/as_ptr/from_ptr round trips) is exercised by the C17 layout harness; erase/unsize/ZstCache chains in the collector harness are still to be added.",
+   ref="DESIGN §6 C19, §7", engine="tables", note=TT),
+})
+
 PENDING = {
- "C13": "check being integrated (translator + WriteCap calculus); not claimed yet",
  "C14": "check being built (DynamicRootSet slot-table model); not claimed yet",
- "C16": "check being integrated (CollectTable + container differential); not claimed yet",
- "C19": "check being integrated (conversion identity + SigTable); not claimed yet",
 }
 
 def main():
@@ -96,6 +110,8 @@ def main():
              "kind_free_text": "Lean arithmetic / state-machine theorems; allocator-level differential harness"},
             {"name": "collect", "path": "harness_collect/ lib/eng_collect.py lean/GcArena/Model/Derive.lean lean/DeriveMain.lean", "serves_properties": ["C15"],
              "kind_free_text": "Lean model of derive(Collect); generated-shape differential; rustc rejection probes"},
+            {"name": "tables", "path": "extract/ probes/ lib/eng_tables.py lean/GcArena/Generated/ lean/GcArena/Model/{WriteCap,Conjure,CollectTy,CallGraphM}.lean", "serves_properties": ["C13", "C16", "C19", "C03", "C20"],
+             "kind_free_text": "syn translator over raw + macro-expanded source -> Lean tables; table theorems; rustc probes"},
             {"name": "brand", "path": "extract_brand/ probes_brand/ lib/eng_brand.py lean/GcArena/Model/Brand.lean", "serves_properties": ["C12"],
              "kind_free_text": "syn translator -> Lean table theorems; rustc probe corpus"},
         ],
